@@ -81,18 +81,19 @@ BOUNDS = {
               'layer tops': 'refine_layers also on the 3 x 3 with its top at 137.5 m and on the shipped g5 (top away from 0)',
               'chains': 'three global refinements: r3x2 x {False,True}^3, r3x3, t8, mixed6+decomposed (False,False,False); nested three '
                         'deep on every refinable single column: r3x3 x {False,True}^3 (inside) + (F,F,F) (created), t8 and '
-                        'mixed6+decomposed and r3x2 two sequences each; polygons at rotation 0: decompose > refine > refine; '
-                        'histories > split_column every quadrilateral x node: r3x3 and mixed6 (refine: singles and pairs x 4 modes, '
-                        'disks / rings / full plain; decompose; reduce dropping each column [> refine of each other column]; '
-                        'delete column i + connections of neighbour j + check(fix) [> refine all on r3x3]), r3x3 single > created, '
-                        'polygons at rotation 0 decomposed',
+                        'mixed6+decomposed and r3x2 one or two sequences each; polygons with <= 2 mid-side nodes at rotation 0: decompose > refine > refine; '
+                        'histories > split_column every quadrilateral x node: r3x3 and mixed6 (refine: singles x 4 modes, pairs x {False, y}, '
+                        'disks / rings / full plain; decompose; reduce dropping each column [r3x3: > refine of each other column]; '
+                        'delete column i + connections of neighbour j + check(fix)), r3x3 corner / side / centre column > created, '
+                        'polygons with <= 2 mid-side nodes at rotation 0 decomposed',
               'compositions': 'split> on r3x3, mixed6; refine>refine on r3x3, t8 singles; polygon>refine at rotation 0, piece 0 and all'},
     'thorough': {'geometries': ['r3x3', 'r4x3', 't8', 'mixed6', 'mixed6+decomposed', 'polygons', 'layers',
                                 'r3x3+refined', 'r4x3+refined', 't8+refined', 'g7', 'g7+refined(sample)'],
                  'regions': 'every non-empty subset where <= 12 columns (511 / 4095 / 255 / 4095); larger: all singles, '
                             'all neighbour pairs, all disks, all rings with hole, full',
-                 'chains': 'as quick, with r4x3 among the histories, every {False,True}^3 sequence on t8 and mixed6+decomposed, '
-                           'nested (created) also (True,True,True), polygons at rotations 0 and 1',
+                 'chains': 'as quick, with r4x3 among the histories, every {False,True}^3 sequence on r3x3, t8 and mixed6+decomposed, '
+                           'pairs x 4 modes, reduce > refine on every geometry, unlink+fix > refine all on r3x3, nested '
+                           '(created) also (True,True,True) and every r3x3 column > created > splits, all polygons at rotations 0 and 1',
                  'polygons': 'all 1253 x 2', 'layers': 'every subset of 3 and of 4 layers x factor 2,3,4, also with the atmosphere layer named like a subsurface layer'},
 }
 TECHNIQUE = ('bounded exhaustive enumeration of refinement regions, modes and polygon shapes on the real methods '
@@ -1303,7 +1304,8 @@ def chain_cases(tier):
             cases.append({'op': 'chain', 'geo': g, 'steps': [rf('all', b) for b in bs]})
     # (b) nested local refinement, three deep: one column, then everything inside it, then again; and: one
     #     column, then everything the step before created (with the transition columns round it), then again
-    for g, seqs in (('r3x3', seqs3), ('t8', [(F, F, F), (T, T, T)] if quick else seqs3),
+    for g, seqs in (('r3x3', [(F, F, F), (T, T, T), (F, T, F), (T, F, T)] if quick else seqs3),
+                    ('t8', [(F, F, F), (T, T, T)] if quick else seqs3),
                     ('mixed6+decomposed', [(F, F, F)] if quick else seqs3), ('r3x2', [(F, F, F), ('x', 'y', 'x')])):
         try:
             geo = base(g)
@@ -1322,7 +1324,7 @@ def chain_cases(tier):
                 cases.append({'op': 'chain', 'geo': g, 'target': i, 'steps': [rf('created', b) for b in bs]})
     # (c) decompose_columns of a straight-node polygon, then two refinements of what it was cut into
     for bname, E, r in polygon_cases():
-        if r != 0 and (quick or r != 1):
+        if (r != 0 and (quick or r != 1)) or (quick and sum(E) > 2):
             continue
         cases.append({'op': 'chain', 'base': bname, 'mids': E, 'rot': r,
                       'steps': [{'do': 'decompose', 'who': 'inside'}, rf('inside', F), rf('inside', F)]})
@@ -1336,7 +1338,7 @@ def chain_cases(tier):
         for S in regs:
             if not refinable(geo, cols, nbr, S):
                 continue
-            for b in (BISECT if S in small else (F,)):
+            for b in ((BISECT if (len(S) == 1 or not quick) else (F, 'y')) if S in small else (F,)):
                 cases.append({'op': 'chain', 'geo': g, 'steps': [rf(S, b)], 'splits': 'every'})
         if any(c.num_nodes > 4 for c in cols):
             cases.append({'op': 'chain', 'geo': g, 'steps': [{'do': 'decompose', 'who': 'polygons'}], 'splits': 'every'})
@@ -1346,7 +1348,7 @@ def chain_cases(tier):
         # reduce (drop one column), then refine one of the others, then the splits
         for i in range(n):
             cases.append({'op': 'chain', 'geo': g, 'steps': [{'do': 'reduce', 'drop': [i]}], 'splits': 'every'})
-            for j in range(n - 1):
+            for j in (range(n - 1) if (not quick or g == 'r3x3') else ()):
                 cases.append({'op': 'chain', 'geo': g, 'steps': [{'do': 'reduce', 'drop': [i]}, rf([j], F)],
                               'splits': 'every'})
         # delete a column, delete the connections of one of its neighbours, check(fix=True)
@@ -1354,16 +1356,16 @@ def chain_cases(tier):
             for j in sorted(nbr[i]):
                 cases.append({'op': 'chain', 'geo': g, 'steps': [{'do': 'unlink+fix', 'column': i, 'strip': j}],
                               'splits': 'every'})
-                if not quick or g == 'r3x3':
+                if not quick and g == 'r3x3':
                     cases.append({'op': 'chain', 'geo': g, 'steps': [{'do': 'unlink+fix', 'column': i, 'strip': j},
                                                                      rf('all', F)], 'splits': 'every'})
     # two refinements, then the splits
-    for i in range(9):
+    for i in ((0, 1, 4) if quick else range(9)):
         cases.append({'op': 'chain', 'geo': 'r3x3', 'target': i, 'steps': [rf('created', F), rf('created', F)],
                       'splits': 'every'})
     # decomposed polygon, then the splits (ring of neighbours and the pieces)
     for bname, E, r in polygon_cases():
-        if r != 0 and (quick or r != 1):
+        if (r != 0 and (quick or r != 1)) or (quick and sum(E) > 2):
             continue
         cases.append({'op': 'chain', 'base': bname, 'mids': E, 'rot': r,
                       'steps': [{'do': 'decompose', 'who': 'inside'}], 'splits': 'every'})
